@@ -676,7 +676,7 @@ class Grid:
 
             if ax_metric_weighted:
                 metric = self.get_metric(array, ax_metric_weighted)
-                array = array * metric
+                array = (array * metric).rename(data_unpacked.name)
 
             # if chunked along core dim then we need map_overlap
             core_dim = self._get_dims_from_axis(data, ax_name)
@@ -701,7 +701,7 @@ class Grid:
 
             if ax_metric_weighted:
                 metric = self.get_metric(array, ax_metric_weighted)
-                array = array / metric
+                array = (array / metric).rename(data_unpacked.name)
 
         return self._transpose_to_keep_same_dim_order(data_unpacked, array, axis)
 
@@ -1131,7 +1131,7 @@ class Grid:
             ax_metric_weighted = metric_weighted[ax.name]
             if ax_metric_weighted:
                 metric = self.get_metric(data, ax_metric_weighted)
-                data = data * metric
+                data = (data * metric).rename(da.name)
 
             # first use xarray's cumsum method
             data = data.cumsum(dim=dim)
@@ -1192,7 +1192,7 @@ class Grid:
             ax_metric_weighted = metric_weighted[ax.name]
             if ax_metric_weighted:
                 metric = self.get_metric(reattached, ax_metric_weighted)
-                reattached = reattached / metric
+                reattached = (reattached / metric).rename(da.name)
 
             data = reattached
 
